@@ -87,6 +87,14 @@ def o_split(s):
         exp = refnames.split_names(s)
         if pieces != exp:
             return (("exact-rule", repr(pieces), repr(exp)), nontrivial, cls)
+    # history independence: the list handed out belongs to the caller
+    snapshot = list(pieces)
+    pieces.append("<altered by caller>")
+    if pieces[:-1]:
+        pieces[0] = "<altered>"
+    again = split_multiple_persons_names(s)
+    if again is pieces or again != snapshot:
+        return (("result-shared-between-calls", repr(again), repr(snapshot)), nontrivial, cls)
     return (None, nontrivial, cls)
 
 
